@@ -1185,37 +1185,6 @@ class InBodyPhase(Phase):
                                              attributes=token["data"],
                                              selfClosing=token["selfClosing"]))
 
-    def startTagIsIndex(self, token):
-        self.parser.parseError("deprecated-tag", {"name": "isindex"})
-        if self.tree.formPointer:
-            return
-        form_attrs = {}
-        if "action" in token["data"]:
-            form_attrs["action"] = token["data"]["action"]
-        self.processStartTag(impliedTagToken("form", "StartTag",
-                                             attributes=form_attrs))
-        self.processStartTag(impliedTagToken("hr", "StartTag"))
-        self.processStartTag(impliedTagToken("label", "StartTag"))
-        # XXX Localization ...
-        if "prompt" in token["data"]:
-            prompt = token["data"]["prompt"]
-        else:
-            prompt = "This is a searchable index. Enter search keywords: "
-        self.processCharacters(
-            {"type": tokenTypes["Characters"], "data": prompt})
-        attributes = token["data"].copy()
-        if "action" in attributes:
-            del attributes["action"]
-        if "prompt" in attributes:
-            del attributes["prompt"]
-        attributes["name"] = "isindex"
-        self.processStartTag(impliedTagToken("input", "StartTag",
-                                             attributes=attributes,
-                                             selfClosing=token["selfClosing"]))
-        self.processEndTag(impliedTagToken("label"))
-        self.processStartTag(impliedTagToken("hr", "StartTag"))
-        self.processEndTag(impliedTagToken("form"))
-
     def startTagTextarea(self, token):
         self.tree.insertElement(token)
         self.parser.tokenizer.state = self.parser.tokenizer.rcdataState
@@ -1632,7 +1601,6 @@ class InBodyPhase(Phase):
         ("input", startTagInput),
         ("hr", startTagHr),
         ("image", startTagImage),
-        ("isindex", startTagIsIndex),
         ("textarea", startTagTextarea),
         ("iframe", startTagIFrame),
         ("noscript", startTagNoscript),
